@@ -5,6 +5,11 @@ def _opaque(name, path):
     return '#[verifier::external_type_specification] #[verifier::external_body] pub struct Ex%s(%s);' % (name, path)
 
 
+import importlib as _il, os as _os, sys as _sys
+_sys.path.insert(0, _os.path.dirname(_os.path.abspath(__file__)))
+import vector as _vector_spec
+_il.reload(_vector_spec)
+
 TYPE_EXT = {
     'Heap': {'decl': _opaque('Heap', 'crate::vm::heap::Heap')},
     'Stack': {'decl': _opaque('Stack', 'crate::vm::stack::Stack')},
@@ -29,22 +34,10 @@ TYPE_EXT = {
     'CellT': {'decl': '#[verifier::external_type_specification] pub struct ExCell(crate::cell::Cell);', 'needs': ['Number'], 'replaces': ['Cell']},
     'OpCodeT': {'decl': '#[verifier::external_type_specification] pub struct ExOpCode(crate::vm::opcode::OpCode);', 'replaces': ['OpCode']},
     'BindingLocation': {'decl': '#[verifier::external_type_specification] pub struct ExBindingLocation(crate::vm::environment::BindingLocation);'},
-    'VectorView': {'needs': ['Vector', 'VCell'], 'decl': '''
-/// contents of the interior-mutable vector payload (opaque type); `vector_written` records a store:
-/// it can only be established by a call of Vector::put with exactly that index and value
-pub uninterp spec fn vector_view(v: crate::vm::vector::Vector) -> Seq<crate::vm::vcell::VCell>;
-pub uninterp spec fn vector_written(v: crate::vm::vector::Vector, i: int, x: crate::vm::vcell::VCell) -> bool;
-pub assume_specification [crate::vm::vector::Vector::len] (v: &crate::vm::vector::Vector) -> (r: usize) ensures r == vector_view(*v).len();
-pub assume_specification [crate::vm::vector::Vector::get] (v: &crate::vm::vector::Vector, i: usize) -> (r: Option<crate::vm::vcell::VCell>)
-    ensures i < vector_view(*v).len() ==> r == Some(vector_view(*v)[i as int]), i >= vector_view(*v).len() ==> r is None;
-/// put silently ignores an out-of-range index: the precondition makes every call site prove the index is in range
-pub assume_specification [crate::vm::vector::Vector::put] (v: &crate::vm::vector::Vector, i: usize, x: crate::vm::vcell::VCell)
-    requires i < vector_view(*v).len() ensures vector_written(*v, i as int, x);
-pub assume_specification [crate::vm::vector::Vector::new] (x: Vec<crate::vm::vcell::VCell>) -> (r: crate::vm::vector::Vector) ensures vector_view(r) == x@;
-/// clone_vector clamps both bounds and treats `end` as inclusive (pinned by the suite); an empty vector yields an empty copy
-pub assume_specification [crate::vm::vector::Vector::clone_vector] (v: &crate::vm::vector::Vector, start: Option<usize>, end: Option<usize>) -> (r: Vec<crate::vm::vcell::VCell>)
-    ensures end is None && (start matches Some(s) ==> s <= vector_view(*v).len()) ==> r@ == vector_view(*v).subrange((match start { Some(s) => s as int, None => 0int }), vector_view(*v).len() as int);
-'''},
+    # opaque VCell (unit `vector`: a transparent VCell would be recursive through the RefCell of the wrapped Vector)
+    'VCellO': {'decl': '''#[verifier::external_type_specification] #[verifier::external_body] pub struct ExVCell(crate::vm::vcell::VCell);
+pub assume_specification [<crate::vm::vcell::VCell as Clone>::clone] (a: &crate::vm::vcell::VCell) -> (r: crate::vm::vcell::VCell) ensures r == *a;''', 'replaces': ['VCell']},
+    'VectorView': {'needs': ['Vector', 'VCell'], 'decl': _vector_spec.assumed_decl('vector_view')},
     'EnvView': {'needs': ['LexicalEnvironment', 'VCell'], 'decl': '''
 pub uninterp spec fn env_view(e: crate::vm::environment::LexicalEnvironment) -> Seq<crate::vm::vcell::VCell>;
 pub assume_specification [crate::vm::environment::LexicalEnvironment::slot_len] (e: &crate::vm::environment::LexicalEnvironment) -> (r: usize) ensures r == env_view(*e).len();
@@ -67,6 +60,8 @@ GROUPS = {
     'gc': ['gc'],
     'heap': ['gc', 'vcell', 'heap'],
     'stack': ['vcell', 'stack'],
+    'globenv': ['vcell', 'globenv'],
+    'vector': ['vector'],
     'cont': ['vcell', 'stack', 'vm_struct', 'continuation', 'builtin_mod', 'builtin_procedure'],
     'builtins': ['vcell', 'stack', 'vm_struct', 'builtin_mod', 'builtin_vector', 'builtin_list'],
     'compile': ['vm_struct', 'vm_prepare', 'lambda', 'compile', 'builtin_procedure_eval'],
@@ -137,23 +132,23 @@ PROPS = {
                 'restore_continuation requires the saved stack to be no longer than the running one; this holds because stacks never shrink (every Stack operation under contract keeps or doubles the length) but is a whole-history fact, assumed at the call site',
                 '<[T]>::to_vec / clone_from_slice specs assumed',
             ]},
-    'C14': {'groups': ['builtins', 'heap'], 'search': 'search_list',
+    'C14': {'groups': ['builtins', 'heap', 'vector'], 'search': 'search_list',
             'kani': [
                 {'harness': 'vcell_accessors', 'file': 'src/vm/vcell.rs', 'kind': 'complete', 'timeout': 600, 'what': 'VCell::as_ptr/as_argc/as_car/as_cdr/as_bp/as_ep/as_ip/is_pair answer Ok(payload) exactly on the matching variant (their contracts are assumed on the Verus side)'},
             ],
             'assumptions': [
                 'scope: the vector procedures vector, make-vector, vector-length, vector-ref, vector-set!, vector-fill!, vector->list, list->vector, vector-copy (start index), vector-copy! and the pair/list procedures cons, car, cdr, set-car!, set-cdr!, list-ref, list-tail, reverse and the list-copying helper clone_list that append uses (a fresh chain of allocated pairs with the very car fields of the argument, ending in a fresh () cell; nothing allocated before changes); append itself (Verus: for-loops do not support `continue`), equal?, and the library procedures written in Scheme (length, map, memq, assq, ...) are NOT under contract', 'vector->list / reverse build fresh lists: list_of / plist say every pair of the result is an allocated cell, the cars designate the very elements (a pointer is kept, another value sits in an allocated cell holding it), the order is right, the list ends in (), and heap_ext says no cell that was allocated before is changed; reverse requires that the cdr fields along its argument designate allocated cells (a reachable list never points into free cells: collector soundness, C03) and, like list->vector, does not terminate on a circular list',
                 'in group builtins the heap is opaque: Heap::get / put / get_at_index_mut carry assumed contracts over the views heap_deref / heap_live (what a pointer designates, which cells are allocated).  The put and get_at_index_mut models are ONE text (specs/builtin.py: PUT_MODEL_TEMPLATE, GIM_MODEL_TEMPLATE) instantiated twice: over uninterpreted views where they are assumed, and over the concrete views (cells / state map) in unit heap, where Heap::put and Heap::get_at_index_mut are VERIFIED to satisfy them (group heap runs under this property for that).  Writing the proof down showed that the first assumed model was wrong for a symbol whose name is already interned (it claimed a fresh cell); the model was corrected.  Heap::get (Cow argument) stays assumed',
-                'stores into the interior-mutable Vector are tracked as events: vector_written(v, i, x) can only be established by Vector::put(i, x); "no other slot is written" (frame) is not expressible and not decided; overlapping vector-copy! on one vector is not decided',
+                'stores into the interior-mutable Vector are tracked as events: vector_written(v, i, x) can only be established by Vector::put(i, x); "no other slot is written" (frame) is not expressible and not decided.  Vector::get is modelled against the contents at entry (vector_view is a function of the handle): exact for distinct allocations; when vector-copy! is given one vector as source and destination (Rc::ptr_eq, assumed to decide identity of the allocation: rc_same) each copy loop carries the obligation that the slot it reads is not among the slots it has already written, which is what makes the entry contents the right model (R7RS: as if the source were copied to a temporary first)',
                 'Vector::put carries the precondition index < length, so its silently-ignore branch is proved dead at every call site',
                 'the typed poppers pop_argc / pop_number / pop_index / pop_vector are verified (not assumed) against Heap::get (assumed: heap_deref), Number::to_usize (assumed) and the Display specs of Cell / Number used in their error text',
-                'Vector::{len,get,put,new,clone_vector}, VCell::vector: assumed specs over the uninterpreted payload view vector_view',
+                'Vector::len / get / new / clone_vector: the specs the builtins assume over the uninterpreted payload view vector_view are one text (specs/vector.py) that unit vector, which runs under this property, PROVES on the real bodies over the RefCell contents (assumed there: RefCell::new / borrow and Ref::deref hand out the current contents, Vec::from(&[T]) copies the slice; clone_vector gets the precondition start <= end + 1 under which its slice expression cannot panic, proved at its call site in vector-copy); Vector::put / push (RefCell::borrow_mut) and VCell::vector stay assumed',
                 'executable rewrite inside verified bodies: `.unwrap_or_else(|| v.len())` -> `.unwrap_or(v.len())` (closure results are opaque to Verus; the argument is a pure length read)',
             ]},
-    'C07': {'groups': ['run', 'stack', 'compile'], 'search': 'search_fail',
+    'C07': {'groups': ['run', 'stack', 'compile', 'globenv'], 'search': 'search_fail',
             'assumptions': [
                 'decided: an evaluation that does not fail leaves no stack trace on record (a stale trace of an earlier failure is cleared); the error arm of run_count leaves the machine in the idle top-level control state (sp = 0, every stack slot wiped, bp = 0, ep = none) with heap and globals exactly as the failing instruction left them; Stack::clear wipes every slot (proved in unit stack)',
-                'a compile error leaves the control state untouched: every compile function, compile_runnable and prepare_eval are proved (group compile) to leave registers and stack as they were, prepare_eval moves %ip only on success; read errors happen before prepare_eval (by reading eval_text)', 'not decided: that later evaluations then behave as in a VM that only performed the completed effects (needs the semantics of compile + run_one)',
+                'a compile error leaves the control state untouched: every compile function, compile_runnable and prepare_eval are proved (group compile) to leave registers and stack as they were, prepare_eval moves %ip only on success; read errors happen before prepare_eval (by reading eval_text)', 'compilation binds nothing: every compile function, compile_runnable and prepare_eval are proved to keep the value of every global slot and to leave the slots they create undefined (genv_kept), so a definition the failed form never executed is not performed at compile time; the models of GlobalEnvironment::get_binding / put_slot / get_slot assumed there are one text (specs/environment.py) that unit globenv proves on the real bodies; assumed: the type invariant GlobalEnvironment::wf (every deep binding designates an existing slot; fields are private and new / get_binding / put_slot are proved to establish / preserve it), GlobalEnvironment::get only reads, compile_set / compile_quasiquote / compile_formal_arguments / transform keep the globals (bodies not ingestible)', 'not decided: that later evaluations then behave as in a VM that only performed the completed effects (needs the semantics of compile + run_one)',
                 'run_one / StackTrace::new: assumed contracts; the contracts group run assumes for Stack::clear / get_sp / get_sp_mut (Stack is opaque there) are one text (specs/stack.py: CLEAR_MODEL, GET_SP_MODEL, GET_SP_MUT_MODEL) that unit stack, which runs under this property, proves on the real functions over the concrete views',
             ]},
     'C20': {'level': 'other', 'groups': [],
